@@ -110,7 +110,7 @@ def directed():
 def random_histories(prop, tier, seed):
     quick = tier == "quick"
     kind = KIND[prop]
-    n = {"C07": (64, 640), "C08": (28, 240), "C16": (40, 400)}[prop][0 if quick else 1]
+    n = {"C07": (64, 2400), "C08": (28, 900), "C16": (40, 1500)}[prop][0 if quick else 1]
     scs = [gen_aof.gen_history(seed, i, kind) for i in range(n)]
     if prop == "C07":
         # configured delays above 1 s (finding A11 lives there) on a small share
